@@ -189,7 +189,9 @@ CLAIMS = {
                 "errors are exactly characterised and none occurs for a crash-free canon oracle, choice masters listing their alternatives and parsed sources; from_words / as_words of "
                 "every numeric/bool converter with any constructor arguments: no internal error for non-empty word lists and a total eval oracle (resp. well-typed values); extract: no "
                 "internal error on trees satisfying extract_wf (evaluated on every fetch result of the streams), crash kinds characterised.",
-        "note": "Trusted as C02. Converter value texts: C10 stream. eval bombs are not generated (a value like 9**9**9**9 does not return: limitation).",
+        "note": "Trusted as C02. Converter value texts: C10 stream; text-like converters (str, path, key, qstr, strings, words) on hostile texts incl. NUL bytes; "
+                "the clause 'every call returns' for calls that loop inside C code (regular expressions) is checked by stream 'returns': a fixed list of long improper names / "
+                "references / values in a child interpreter with a 30 s bound. eval bombs are not generated (a value like 9**9**9**9 does not return: limitation).",
     },
     "C03": {
         "text": "Full-strength theorems (all strings over Latin-1, all four quote styles, any following text, both tokenizer contexts; plus C03_in_document at PARSER level: "
